@@ -22,6 +22,9 @@ LEAD = ["", ".", "-", "_"]
 INNER = ["", ".", "-", "_"]
 NUMS = [0, 1, 2, 10, 99]
 LOCALS = [None, "abc", "1", "abc.1", "a-b_c", "ubuntu.20"]
+# the label is kept as written and compared part by part (numeric parts as numbers, others as text): leading zeros of
+# numeric and of alphanumeric parts, digits inside words, every separator
+LOCALS_ALL = ["abc", "1", "abc.1", "a-b_c", "ubuntu.20", "007", "cpu.007", "0a1b2c", "git.00f3", "build_0x", "0", "00", "0.0.13", "local0.0.13", "x0", "0x0", "10.01", "a.0b.0", "1-0a_00"]
 
 
 def terms(r, tier):
@@ -37,6 +40,9 @@ def terms(r, tier):
         out.append((None, (1, 2, 3), None, p, None, None))
     for p in devs:
         out.append((None, (1, 2, 3), None, None, p, None))
+    for loc in LOCALS_ALL:
+        out.append((None, (1, 2, 3), None, None, None, loc))
+        out.append((1, (0, 10, 0), ("", "rc", "", "1"), None, None, loc))
     n = 2500 if tier == "quick" else 20000
     for _ in range(n):
         out.append((r.choice([None, 0, 1, 2, 10, 100, 2024]), r.choice(rel + [(r.randrange(1000), r.randrange(1000), r.randrange(1000))]), r.choice(pres), r.choice(posts), r.choice(devs), r.choice(LOCALS)))
